@@ -154,6 +154,25 @@ def handleDocEq (j : Json) : Except String Json := do
     (`label|...`) and sends the identifiers the implementation chose as `[[label, ident],...]` -/
 def labelOf (extra : String) : String := (extra.splitOn "|").headD ""
 
+/-- the decidable hypotheses of `edifify_documented_only` / `edifify_idem` / `compose_repeatable`
+    evaluated on this very netlist and these oracles: "in" or the name of the first one that fails.
+    (`NoSelf` is checked on the identities that occur; the oracle tables are empty elsewhere.) -/
+def firstFailingHyp (depL : Nat → List Nat) (depD : Nat → Nat → List Nat) (fuel : Nat) (n : ENet) (fin : Bool) : String :=
+  let ids := n.libs.map (·.id)
+  let closed (deps : Nat → List Nat) (input : List Nat) : Bool := input.all (fun x => (deps x).all (fun d => input.contains d))
+  let noSelf (deps : Nat → List Nat) (input : List Nat) : Bool := input.all (fun x => !(deps x).contains x)
+  let nodup (l : List Nat) : Bool := l.eraseDups.length == l.length
+  if !nodup ids then "EdifHyp.libIds"
+  else if !noSelf depL ids then "EdifHyp.libNoSelf"
+  else if !closed depL ids then "EdifHyp.libClosed"
+  else if !n.libs.all (fun l => nodup (l.defs.map (·.id))) then "EdifHyp.defIds"
+  else if !n.libs.all (fun l => noSelf (depD l.id) (l.defs.map (·.id))) then "EdifHyp.defNoSelf"
+  else if !n.libs.all (fun l => closed (depD l.id) (l.defs.map (·.id))) then "EdifHyp.defClosed"
+  else if !fin then "hfin"
+  else if !(2 * n.libs.length ≤ fuel) then "hfuelL"
+  else if !n.libs.all (fun l => 2 * l.defs.length ≤ fuel) then "hfuelD"
+  else "in"
+
 def handleEdifify (j : Json) : Except String Json := do
   let n ← decodeNet (← j.getObjVal? "net")
   let depL ← decodeDeps (← getArr j "depL")
@@ -173,7 +192,7 @@ def handleEdifify (j : Json) : Except String Json := do
   -- second pre-pass on the result (repeatability in the model)
   let r2 := edifify depL depD mkId fuel r.1
   pure (Json.mkObj [("net", encNet r.1), ("finished", Json.bool r.2), ("second_identity", Json.bool (r2.1 == r.1 && r2.2)),
-                    ("docEq", Json.bool (docEqB r.1 n))])
+                    ("docEq", Json.bool (docEqB r.1 n)), ("hyp", Json.str (firstFailingHyp depL depD fuel n r.2))])
 
 /-! ## C15: EDIF reference resolution -/
 
